@@ -65,7 +65,7 @@ Proof.
 Qed.
 Print Assumptions C10_template_selection_indep.
 
-(* (4) file_indep, the code as it is (lel_shared = true, reset as translated): two files of the same type written under the same
+(* (4) file_indep for the variant with processor objects shared across files (lel_shared = true, the code before 88d3c81): two files of the same type written under the same
    configuration and template listing with identically constructed processors -- in ANY two histories (input sets, processing
    orders, earlier runs, other generators, cache clearing, cache sizes) -- come from the same template and are equal, PROVIDED
    the LimitEmptyLines counters of the writing generator were 0 when each file was started (e_clean; computed by the model,
@@ -99,7 +99,36 @@ Proof.
 Qed.
 Print Assumptions C10_file_alone_partial.
 
-(* (5) the unrestricted statement is FALSE of the model of the code as it is: known finding F-LEL-LEAK.  Witness: limit 1, file
+(* (4') the code as it is NOW: _generate_code tells every line processor that a new file begins (translated facts: the call
+   `line_pps.append(_reset_line_pp(pp))` precedes the consumption of the template generator, _reset_line_pp calls reset(),
+   and the translated LimitEmptyLines.reset restores the constructed state).  With that the statement holds with NO side
+   condition.  `negb generate_code_resets_line_pps` is the model's lel_shared: if the reset call disappears from the source
+   this theorem no longer type-checks. *)
+Theorem C10_line_pps_reset :
+  generate_code_resets_line_pps = true /\
+  forall s : LimitEmptyLines_state,
+    pp_fresh (PLimit s) = PLimit (LimitEmptyLines_reset s) /\
+    LimitEmptyLines_reset s = LimitEmptyLines_init (LimitEmptyLines_max_empty_lines s).
+Proof. split; [reflexivity | exact lel_reset_fresh]. Qed.
+Print Assumptions C10_line_pps_reset.
+
+Theorem C10_file_indep :
+  forall (U : universe) (bases : N -> list N) (cname : N -> str) (fuel : nat) (rank : N -> nat), forest bases rank fuel ->
+  forall (render : N -> option str -> tyobj -> prog) (cfun : ckey -> str) (m1 m2 : option nat) (h1 h2 : list op) (e1 e2 : entry),
+    In e1 (log U bases cname fuel render cfun m1 generate_code_resets_uniq (negb generate_code_resets_line_pps) h1) ->
+    In e2 (log U bases cname fuel render cfun m2 generate_code_resets_uniq (negb generate_code_resets_line_pps) h2) ->
+    e_cfg e1 = e_cfg e2 -> e_tset e1 = e_tset e2 -> e_pps0 e1 = e_pps0 e2 -> e_key e1 = e_key e2 ->
+    e_tmpl e1 = e_tmpl e2 /\ e_text e1 = e_text e2.
+Proof.
+  intros U bases cname fuel rank (F1 & F2 & F3) render cfun m1 m2 h1 h2 e1 e2 H1 H2 Hc Ht Hp Hk.
+  exact (file_indep_lemma U bases cname fuel rank F1 F2 F3 render cfun false m1 m2 h1 h2 e1 e2 H1 H2 Hc Ht Hp Hk
+           (or_introl eq_refl)).
+Qed.
+Print Assumptions C10_file_indep.
+
+(* (5) WITHOUT that reset (lel_shared = true: the code before commit 88d3c81, finding F-LEL-LEAK, now fixed) the unrestricted
+   statement is FALSE: this is what the check looks for if the leak ever returns.
+   the unrestricted statement is FALSE of the model of the code as it was: known finding F-LEL-LEAK.  Witness: limit 1, file
    of A = "a\n\n", file of B = "\nb"; whole namespace: B = "b"; subset {B}: B = "\nb". *)
 Theorem C10_lel_leak_refuted :
   exists (U : universe) (render : N -> option str -> tyobj -> prog) (cfun : ckey -> str) (h1 h2 : list op) (e1 e2 : entry),
@@ -120,8 +149,7 @@ Theorem C10_witness_forest : forest (ct_bases w_ct) w_rank 4.
 Proof. exact w_forest_ok. Qed.
 Print Assumptions C10_witness_forest.
 
-(* (6) without the shared counter (processor state re-created per file: the variant the check uses when F-LEL-LEAK no longer
-   reproduces) the statement holds with no side condition. *)
+(* (6) the same as (4') with lel_shared written out as false *)
 Theorem C10_file_indep_noleak :
   forall (U : universe) (bases : N -> list N) (cname : N -> str) (fuel : nat) (rank : N -> nat), forest bases rank fuel ->
   forall (render : N -> option str -> tyobj -> prog) (cfun : ckey -> str) (m1 m2 : option nat) (h1 h2 : list op) (e1 e2 : entry),
